@@ -170,6 +170,17 @@ impl Sweep {
             },
             embed: false,
         });
+        // wikilinks: harper post-processes `[[target|text]]` runs that pulldown-cmark leaves
+        // literal (empty target, escaped bracket, nesting, several pipes, a table next to them)
+        fams.push(Family {
+            name: "G1/markdown-wikilinks".into(),
+            fes: fe_idx(&fes, |f| f.name == "markdown" || f.name == "comment:rust"),
+            generator: Gen::Strings {
+                atoms: strs(&["[[", "]]", "|", "a", " ", "\\", "[", "]"]),
+                max_len: t.pick(6, 8),
+            },
+            embed: false,
+        });
         // character references (which decode to a different character than the source holds) and
         // inline spans whose delimiters are longer than one character
         fams.push(Family {
@@ -1250,9 +1261,27 @@ pub struct Ladder {
 }
 
 fn pump(unit: &str, n: usize) -> String {
+    // `prefix \u{1} unit [\u{2} suffix]`
     match unit.split_once('\u{1}') {
-        Some((pre, u)) => format!("{pre}{}", u.repeat(n)),
+        Some((pre, u)) => match u.split_once('\u{2}') {
+            Some((u, suf)) => format!("{pre}{}{suf}", u.repeat(n)),
+            None => format!("{pre}{}", u.repeat(n)),
+        },
         None => unit.repeat(n),
+    }
+}
+
+/// The pumped part of a prefixed literal, if it is a run of decimal digits: such literals get
+/// lengths around 2^16 as well (counters kept in 16 bits, formatting precisions). Hex literals are
+/// left out: beyond 16 digits they are one long *word*, whose spell check is linear but slow
+/// (100 s at 80 000 characters) and would only exhaust the budget.
+fn digit_literal(unit: &str) -> bool {
+    match unit.split_once('\u{1}') {
+        Some((pre, u)) => {
+            let u = u.split_once('\u{2}').map(|x| x.0).unwrap_or(u);
+            pre != "0x" && !u.is_empty() && u.chars().all(|c| c.is_ascii_digit())
+        }
+        None => false,
     }
 }
 
@@ -1283,7 +1312,9 @@ impl Ladder {
                         // runs of one bracket / mark, and of whole words, sentences, paragraphs
                         "(", ")", "!", "?", ";", "…", "$", "%", "&", "—", "(a", "a)", "\"a\" ", "(a) ", "a, ", "a; ", "A b. ", "a\n\n", "a b ", "Ab ", "a - ", "a ’", "I'm ", "U.S. ",
                         // literals of unbounded length behind a fixed prefix
-                        "0x\u{1}F", "0x\u{1}1", "1\u{1}0", "1e\u{1}9", "1.\u{1}0", "$\u{1}9", "a@\u{1}b.", "http://\u{1}a/", "[\u{1}a-", "[a\u{1}-z", "\"\u{1}a ", "1\u{1}st", "1\u{1}s", "19\u{1}0s", "a\u{1}'s", "a'\u{1}a'"] {
+                        "0x\u{1}F", "0x\u{1}1", "1\u{1}0", "1e\u{1}9", "1.\u{1}0", "$\u{1}9", "a@\u{1}b.", "http://\u{1}a/", "[\u{1}a-", "[a\u{1}-z", "\"\u{1}a ", "1\u{1}st", "1\u{1}s", "19\u{1}0s", "a\u{1}'s", "a'\u{1}a'",
+                        // … and in front of what a rule renders the number for (currency, ordinal, unit)
+                        "0.\u{1}0\u{2}$ a", "$0.\u{1}0\u{2} a", "1.\u{1}0\u{2}th a", "€1.\u{1}9\u{2}. A", "1.\u{1}0\u{2}1 %", "1\u{1}0\u{2}.5$"] {
                         cases.push((i, u.to_string()));
                     }
                 }
@@ -1346,6 +1377,12 @@ impl Job for Ladder {
                 }
             }
             times.push((n, best));
+        }
+        if digit_literal(&unit) {
+            for m in [65_534usize, 65_535, 65_536, 65_537, 70_000] {
+                let _ = self.time_once(fe, &pump(&unit, m));
+                out.count("ladder_inputs_around_2^16", 1);
+            }
         }
         out.count("evaluations", 1);
         out.count("distinct_nontrivial", 1);
